@@ -37,7 +37,8 @@ from common import short
 from gen import api_walk, c01_calls, texts
 
 MODELS = ['Validate', 'ApiHelpers', 'IterArgs']
-MODEL_TARGETS = ['JediModel.Lemmas.ValidateSpec', 'JediModel.Model.ApiHelpers', 'JediModel.Model.IterArgs']
+MODEL_TARGETS = ['JediModel.Lemmas.ValidateSpec', 'JediModel.Model.ApiHelpers', 'JediModel.Model.IterArgs',
+                 'JediModel.Lemmas.IterArgsSpec']
 MANIFEST = dict(
     text='Theorems over the model of helpers.validate_line_column, instantiated with the operators, bounds, '
          'defaults, endswith table and exception classes the translator reads from the source: closed form, '
@@ -632,7 +633,7 @@ def stream_typed_start(ctx):
     streams do); returns a join function -> (items, results)"""
     import threading
     rng = ctx.subrng('typed')
-    items = c01_calls.lines(rng, ctx.size(16, 400), ctx.size(7, None))
+    items = c01_calls.lines(rng, ctx.size(16, 300), ctx.size(7, None))
     for it in items:
         # thorough: every query at every prefix; the unabridged attribute walk at every prefix for
         # the systematic part
@@ -706,6 +707,8 @@ def stream_typed_finish(ctx, reqs, join):
     cases = []
     tot = {'prefixes': 0, 'queries': 0, 'objects': 0, 'with_sig': 0, 'suppressed': 0, 'cpu': 0.0}
     sites = {}
+    seen_ia = set()
+    ia_cap = ctx.size(8000, 25000)
     for r in results:
         it = by_id[r['id']]
         fam = 'typed/' + it.get('mode', 'prefix')
@@ -737,6 +740,11 @@ def stream_typed_finish(ctx, reqs, join):
                      observed={'exception': e['exception'], 'site': e['site'], 'message': e['message'],
                                'frames': e.get('frames', '')}, how=how)
         for ia in r['iterargs']:
+            # one request per distinct (node list, position); every real exception is kept
+            key = json.dumps([ia['children'], ia['line'], ia['col']], sort_keys=True)
+            if key in seen_ia or (len(seen_ia) >= ia_cap and not isinstance(ia['impl'], dict)):
+                continue
+            seen_ia.add(key)
             reqs.append({'op': 'iterargs', 'children': ia['children'], 'line': ia['line'], 'col': ia['col']})
             cases.append((('iterargs', ia['tail'], ia['typed'], ia['mode'], ia['line'], ia['col']), ia['impl']))
     ctx.notes.append('typed stream: %d statements, %d prefixes (%d with a resolved signature), %d queries, '
